@@ -35,6 +35,15 @@ def systematic():
                         ms.append(aci(vf, explicit=True))
                     vs.append(Variant("V%d" % n, "unit", [], ms))
             items.append(Item("E", vs, metas=[EM("aci")] if eflag else []))
+    # pairs of spellings that are EQUAL under Unicode case mapping but DIFFERENT under ASCII folding must stay two variants
+    pairs = [("é", "É"), ("k", "\u212a"), ("s", "\u017f"), ("ss", "ß"), ("i", "\u0131"), ("I", "\u0130"), ("ǆ", "Ǆ"), ("σ", "ς"), ("ä-x", "Ä-X")]
+    for eflag in (False, True):
+        vs = []
+        for j, (a, b) in enumerate(pairs):
+            fl = [] if eflag else [aci(True, explicit=(j % 2 == 0))]
+            vs.append(Variant("P%da" % j, "unit", [], [ser(a + str(j))] + fl))
+            vs.append(Variant("P%db" % j, "unit", [], [ser(b + str(j))] + fl))
+        items.append(Item("E", vs, metas=[EM("aci")] if eflag else []))
     # identifiers as spellings, with serialize_all
     for eflag in (False, True):
         for sty in ("snake_case", "SCREAMING-KEBAB-CASE", None):
